@@ -180,6 +180,29 @@ pub fn limits() -> Vec<Limit> {
             source: format!("print({}.len());", s),
             expect: if ok { p(&[&n.to_string()]) } else { Expect::Reject },
         });
+        // the same count reached through literal parts: literal first, expression first, adjacent
+        // expressions then alternation, and a trailing literal as the last part
+        let shapes: [(&str, Box<dyn Fn(usize) -> String>); 4] = [
+            ("lit_first", Box::new(|n| (0..n).map(|k| if k % 2 == 0 { "-" } else { "${1}" }).collect())),
+            ("expr_first", Box::new(|n| (0..n).map(|k| if k % 2 == 0 { "${1}" } else { "-" }).collect())),
+            ("adjacent_then_alternating", Box::new(|n| {
+                let mut t = String::from("${1}${1}${1}");
+                t.extend((3..n).map(|k| if k % 2 == 1 { "-" } else { "${1}" }));
+                t
+            })),
+            ("trailing_literal", Box::new(|n| {
+                let mut t: String = (0..n - 1).map(|_| "${1}").collect();
+                t.push('-');
+                t
+            })),
+        ];
+        for (sname, f) in shapes.iter() {
+            v.push(Limit {
+                name: format!("interpolation_parts_{}_{}", sname, n),
+                source: format!("fn f() {{ var x = 7; var s = \"{}\"; var after = \"after\"; print(s.len()); print(after); }}\nf();", f(n)),
+                expect: if ok { p(&[&n.to_string(), "after"]) } else { Expect::Reject },
+            });
+        }
         // locals: slot 0 plus n variables
         v.push(Limit {
             name: format!("locals_{}", n),
@@ -243,13 +266,14 @@ struct Checked {
     out: Vec<String>,
     trace_checked: u64,
     trace_problem: Option<String>,
+    dangling: u64,
 }
 
 /// compile on a fresh interpreter, verify, run (with the height trace when hooks are available)
 fn compile_verify_run(src: &str, modules: &[(String, String)], run: bool) -> Checked {
     let cfg = RunCfg { fuel: Some(3_000_000), modules: modules.to_vec(), ..RunCfg::default() };
     let mut s = Session::new(cfg);
-    let mut c = Checked { report: None, end: End::Ok(String::new()), out: vec![], trace_checked: 0, trace_problem: None };
+    let mut c = Checked { report: None, end: End::Ok(String::new()), out: vec![], trace_checked: 0, trace_problem: None, dangling: 0 };
     let source = src.to_string();
     yrun::quiet(true);
     let compiled = {
@@ -330,7 +354,7 @@ fn compile_verify_run(src: &str, modules: &[(String, String)], run: bool) -> Che
         }
     }
     drop(function);
-    let _ = s.finish();
+    c.dangling = s.finish().dangling_upvalues;
     c
 }
 
@@ -494,6 +518,12 @@ impl Property for C04 {
             return Verdict::Fail {
                 sig: format!("trace-height-mismatch{}", if family == "programs_triggers" || family == "source" { "+triggers" } else { "" }),
                 detail: format!("{}\n{}", t, if src.len() < 4000 { src.clone() } else { name.clone() }),
+            };
+        }
+        if c.dangling > 0 {
+            return Verdict::Fail {
+                sig: format!("captured-slot-discarded-open{}", if family == "programs_triggers" || family == "source" { "+triggers" } else { "" }),
+                detail: format!("at {} instruction boundaries of the run an open upvalue pointed at or above the top of the value stack: a path discards a captured variable's slot without closing it, so the closure names a slot that is no longer that variable\n{}", c.dangling, if src.len() < 4000 { src.clone() } else { name.clone() }),
             };
         }
         let nontrivial = expect.is_some()
